@@ -268,6 +268,9 @@ class graph(Graph):
         oldnode = mo.data.val
         if oldnode == v:
             return oldnode
+        if oldnode.data.address == vaddr:
+            # v starts where oldnode starts: nothing to split
+            return super(graph, self).add_vertex(oldnode)
         # so v cuts an existing block:
         # if vaddr matches an oldblock instr, cut it:
         cutdone = oldnode.cut(vaddr)
